@@ -10,6 +10,7 @@ from .. import spec_xlsform as spec
 from ..astutil import call_name, const_str, guard_texts, kw
 from ..interp import Raised
 from ..loader import AnalysisError, norm, walk_own
+from .. import cfg as cfgmod
 from ..report import Rule
 from .c19 import _row_loop
 
@@ -236,6 +237,11 @@ def run(ctx):
         ("label::English (en)", True, ("label", ("label", "English (en)"))),
         ("label :: fr", True, ("label", ("label", "fr"))),
         ("label:fr", False, ("label", ("label", "fr"))),
+        # optional spaces around the single-colon delimiter too
+        ("label : English (en)", False, ("label", ("label", "English (en)"))),
+        ("hint: French (fr)", False, ("hint", ("hint", "French (fr)"))),
+        ("hint :French (fr)", False, ("hint", ("hint", "French (fr)"))),
+        ("media :: image :: English", True, ("media", ("media", "image", "English"))),
         ("image::fr", True, (("media", "image"), ("media", "image", "fr"))),
         ("media::image::fr", True, ("media", ("media", "image", "fr"))),
         ("jr:count", False, (("control", "jr:count"), ("control", "jr:count"))),
@@ -266,6 +272,16 @@ def run(ctx):
     dg = ctx.func("pyxform.parsing.sheet_headers:dealias_and_group_headers", "C13.R3")
     udc = [x for x in walk_own(dg.node) if isinstance(x, ast.Assign) and isinstance(x.targets[0], ast.Name) and x.targets[0].id == "use_double_colon"]
     r3.check(len(udc) == 1 and "any(" in norm(udc[0].value) and "'::'" in norm(udc[0].value), "dealias_and_group_headers:delimiter choice", "'::' is used for the whole sheet if any header uses it", dg.loc())
+    # type aliases are resolved on the *dealiased* survey rows: the `type` column is only called `type` after the
+    # header pass (a sheet may spell it Type / command), so the alias pass must come after it
+    w2j3 = ctx.func("pyxform.xls2json:workbook_to_json", "C13.R3")
+    g3 = cfgmod.build(w2j3.node.body)
+    dom3 = g3.dominators(skip_labels=frozenset({"exc"}))
+    hdr = [nid for nid, n in g3.nodes.items() for c in cfgmod.calls_in(n.stmt) if call_name(c) == "dealias_and_group_headers"
+           and kw(c, "sheet_name") is not None and const_str(ctx, w2j3.module, kw(c, "sheet_name")) == (True, "survey")]
+    typ = [nid for nid, n in g3.nodes.items() for c in cfgmod.calls_in(n.stmt) if call_name(c) == "dealias_types"]
+    r3.check(len(hdr) == 1 and len(typ) == 1 and hdr[0] in dom3.get(typ[0], ()), "workbook_to_json:dealias order",
+             "the survey header pass dominates the type-alias pass", w2j3.loc())
     rules.append(r3)
 
     # ------------------------------------------------------------------ R4
